@@ -64,7 +64,7 @@ CLAIMED = {
     ),
     "C11": (
         "exhaustive sweep of every Unicode scalar value and nasty two-character strings through the real loader (L1), the generated code's table sizes and indices (L2, syn visitor) and the build helper's written files (vbuild, strict JSON reader), checking every literal index against the exported table",
-        "Every Unicode scalar as a one-character translation and all pairs over 14 hostile characters, in flat, nested-subkey, namespaced, defaulted and foreign-key-duplicated layouts: each Literal::String(s,i) must satisfy strings[i]==s with i in range, and the string count recorded in every (sub-)locale must equal the table length. The same invariants are checked on every project of every other L1 check.",
+        "Every Unicode scalar as a one-character translation and all pairs over 14 hostile characters, in flat, nested-subkey, namespaced, defaulted and foreign-key-duplicated layouts: each Literal::String(s,i) must satisfy strings[i]==s with i in range, and the string count recorded in every (sub-)locale must equal the table length; plus every assignment of 3 shared strings / an interpolation / null to 2 keys in 3-4 locales (x inherits x namespaces) and, for the build helper, every sequence of <= 3 exports of 4 project variants into one output directory. The same invariants are checked on every project of every other L1 check.",
         L1_NOTE + " File written by the build helper / generated-code sizes: see engines vbuild / L2 in the evidence when present.",
         "DESIGN.md §3 C11",
     ),
@@ -75,20 +75,20 @@ CLAIMED = {
         "DESIGN.md §3 C19",
     ),
     "C12": (
-        "exhaustive enumeration of supported-locale sets x request lists over a closed identifier universe through the real Locale::find_locale / find_matchs, relational oracle",
-        "Every subset of size 1..4 of 12 identifiers (language/script/region/variant combinations and `und`) with each member as default, against every request list of length 0..3 over the universe plus unsupported, mis-cased and unparsable entries (1.2e7 calls): the answer must be supported, match the first request anything supports (exactly or as a less specific form), prefer an exact match for that request, fall back to the default, ignore unparsable entries.",
+        "exhaustive enumeration of supported-locale sets x request lists over a closed identifier universe through the real Locale::find_locale / find_matchs (RT, harness-defined Locale) and on the generated enum of probe crates (L3: default listed first / last / not at all), relational oracle",
+        "Every subset of size 1..4 of 12 identifiers (language/script/region/variant combinations and `und`) with each member as default, against every request list of length 0..3 over the universe plus unsupported, mis-cased and unparsable entries (1.2e7 calls): the answer must be supported, match the first request anything supports (exactly or as a less specific form), prefer an exact match for that request, fall back to the default, ignore unparsable entries. (L3) the same oracle inside probe crates on the enum the proc-macro generates, for 5 (thorough 9) configurations and every request list of length <= 2 over 18 strings: the default is the configured one wherever it was listed.",
         "Seam RT: the repo's negotiation code linked natively; the Locale trait is implemented by a harness type whose get_all() is chosen per configuration (the generated enum's side is C13's). BCP-47 parsing is icu_locid's.",
         "DESIGN.md §3 C12",
     ),
     "C15": (
         "exhaustive enumeration of environments (cookie header x cookie options x Accept-Language x parent x initial locale) on natively created contexts with injected header getters",
-        "All ~2.8e4 environments build real contexts (init_i18n_context_with_options, init_i18n_subcontext_with_options, resolve_locale_with_options) under the ssr feature with effects run to quiescence on a harness-owned executor; the initial locale must follow cookie > Accept-Language > default, and for sub-contexts cookie > initial > parent > same resolution; invalid cookie values are ignored.",
+        "All ~2.8e4 environments build real contexts (init_i18n_context_with_options, init_i18n_subcontext_with_options, resolve_locale_with_options) under the ssr feature with effects run to quiescence on a harness-owned executor; the configured locales have mixed specificity (en, fr, de, en-US) and the Accept-Language values include lists whose preferred entry maps to a less specific locale than a later one; the initial locale must follow cookie > Accept-Language best match (the C12 oracle: first matchable entry, exact match preferred) > default, and for sub-contexts cookie > initial > parent > same resolution; invalid cookie values are ignored.",
         "Seam RT (ssr). Client-only branches (navigator.languages, <html lang>) need a browser and are not executed. Accept-Language entries are fed without spaces (splitting is leptos-use's).",
         "DESIGN.md §3 C15",
     ),
     "C16": (
         "stateless exhaustive exploration of operation histories (depth <= 4/5) over a tree of contexts, replayed on the real reactive runtime under a harness-owned deterministic executor",
-        "Every history of set_locale / set_locale_untracked / set-through-scoped-view / sub-context creation (none, constant, wired initial locale) / wired-signal writes / accessor creation / poll up to the depth bound is replayed from scratch on a fresh Owner; after every step every context, a fresh scoped view and every accessor created earlier (t!, t_string!, tu_string!, t_display!, scoped) is read and compared with a context -> last-locale map; replay determinism is self-checked.",
+        "Every history of set_locale / set_locale_untracked / set-through-scoped-view / sub-context creation (none, constant, wired initial locale) / wired-signal writes / accessor creation / poll up to the depth bound is replayed from scratch on a fresh Owner; after every step every context, a fresh scoped view and every accessor created earlier (t!, t_string!, tu_string!, t_display!, scoped) is read and compared with a context -> last-locale map; subscribers created earlier (a Memo over t_string! and an Effect writing what it sees into a sink) must hold the last locale after every tracked write (the effect once effects ran; after an untracked write they may lag until the next tracked one); replay determinism is self-checked.",
         "Seam RT (ssr, reactive_graph/effects). All tasks, including those leptos hands to the thread pool, run on the calling thread's queue when the harness polls. Wired-signal window: either value admitted until the next poll.",
         "DESIGN.md §3 C16",
     ),
